@@ -33,6 +33,10 @@ def explore_function(modname, qual, make_args, ex=None, node=None, ordinal=None,
     if clo is None:
         raise Unsupported(f'function {modname}:{qual} not found (renamed or removed: contract needs review)')
     clo.no_stub = True
+    if ex.self_class is None and qual and '.' in qual:
+        K = getattr(clo.module, qual.split('.')[0], None)
+        if isinstance(K, type):
+            ex.self_class = K
 
     def run(ex):
         if setup:
